@@ -23,6 +23,21 @@ CLAIMED = {
     ),
 }
 
+CLAIMED["C07"] = (
+    "model_checking",
+    "explicit-state BFS to fixpoint over the real PeerFsm::process (all reachable states of both connection roles), reference-transition oracle on every transition",
+    "All reachable states of the real two-connection PeerFsm are enumerated (fixpoint) for 12 configurations (local hold 0/90 x expected AS set/any x local identifier <,=,> remote) under 19 inputs per role (connect, acceptable/unacceptable OPENs, every message type, both timers, disconnect, admin shutdown, update-sent). Every transition is compared with a reference transition function written from the statement (entry conditions of OpenConfirm/Established, FSM-error NOTIFICATION carrying the state, slot freed + Idle reported, collision survivor and Cease to the loser) and the one-survivor invariant is evaluated in every state. OPEN byte encodings with invalid version / hold time / identifier go through the real parser.",
+    "Sans-IO FSM level: the I/O driver (ConnArbiter, session tasks) is not exercised by this check. Both readings of 'carrying that state' (internal state number / RFC 6608 sub-code) are accepted; with equal identifiers either survivor is accepted.",
+    "DESIGN.md §5 C07",
+)
+CLAIMED["C08"] = (
+    "model_checking",
+    "BFS over timed traces of the real PeerFsm under a virtual-time interpretation of its timer outputs, interval-reference oracle in every state",
+    "For all 25 (local, remote) hold-time pairs from {0,3,9,90,65535} every timed trace up to the depth bound (connect, OPEN, fire-earliest-timer, advance 1 / h/3 / h-1 / h seconds then KEEPALIVE / UPDATE / ROUTE-REFRESH received or UPDATE sent) is executed on the real PeerFsm; in every state the armed hold deadline must equal last-received + min(local,remote), the keepalive deadline last-sent + h/3, ROUTE-REFRESH and sends must not re-arm the hold timer, and with a negotiated value of zero no timer may be armed, no expiry and no timer-driven KEEPALIVE may occur.",
+    "The timer semantics of the I/O driver are modelled (Set*Timer(n) replaces the pending sleep with now+n; hold served before keepalive before received messages), read off PeerSession::apply_outputs / run_select; real-time behaviour below one second is out of scope.",
+    "DESIGN.md §5 C08",
+)
+
 REASON_NOT_YET = "no check registered yet in this revision (machinery for it is designed in DESIGN.md §5 but not built/validated); not claimed"
 
 ALL = ["C%02d" % i for i in range(1, 21)]
